@@ -30,7 +30,7 @@ func init() {
 				"all members or panics. R7: the constructor used for a recognised device is built from that profile's blocking mode " +
 				"and filtered-response TTL. R8: every rule-list engine (shared lists, blocked services, safe search) has a result cache of its own, so a cached verdict of one source is never returned for another.",
 			NotCovered: "what the urlfilter engine matches and the allow/block priority inside GetDNSBasicRule (library); equality of verdicts over all rule-list contents.",
-			Rules: map[string]string{"C02-R24": "a name handed to a rule list is lower-cased; no domain-name field of an upstream record reaches DNSResult as spelled", "C02-R25": "the hash-prefix verdict cache, shared by all requesters, holds no message made by one requester's constructor (blocking mode, TTL)", "C02-R23": "hash-prefix refresh: publish, then clear the verdict cache, only after success (shared with C13-R3)", "C02-R22": "a domain name built by concatenation and stored into a record's domain-name field is guarded by a length comparison (SOA mbox of blocked answers)", "C02-R21": "SetReply on a message that already is a response is followed by restoring its response code (cached blocked answers in NXDOMAIN / REFUSED mode)", "C02-RC": "class rules (error chains, shadowed results, character classes, crossed arguments, pool constructors, array pools, loop completeness, loop-carried buffers, replacing setters, complete clones, Grow arithmetic, pooled-buffer escape, sorted searches, fresh decode targets, per-iteration objects, whole-message copies, codec guards) over the packages this property rests on", "C02-R20": "the result-cache key is an injective packing of host, full question type, class and direction (shared with C12-R7)", "C02-R19": "response side of the composite filter: first answer with a verdict decides; every rule source consulted with the response's own data as an answer; answer-type dispatch", "C02-R18": "objects built per filtering group / profile in conversion loops take no slice carried across iterations (shared backing array or accumulation)", "C02-R1": "request-filter order", "C02-R2": "FilterRequest precedence", "C02-R17": "pooled per-request filtering state is fully re-initialised; rule-list gathering loops skip (never stop at) an unknown element", "C02-R15": "the profile's rule-list IDs keep the configured order through the backend conversion (the first list with a matching rewrite wins, so reordering changes verdicts)", "C02-R13": "blocking-mode fields (custom IPv4 / IPv6 answers) are converted name-to-name by the backend and file-cache codecs", "C02-R11": "mainmw.filterRequest / filterResponse: the filter is asked about this request and this upstream answer; a CNAME rewrite makes the rewritten question go upstream and restores ID, question and a leading CNAME on the way back instead of response filtering", "C02-R10": "in-place refreshable lists (safe search): engine swap and cache clear in one write-locked section, queries under the lock (shared with C12-R1/R2)", "C02-R3": "rule-list consultation order and rewrite priority",
+			Rules: map[string]string{"C02-R27": "filterDNSRewrite: a $dnsrewrite match without values for the question type is answered with an empty NOERROR response, never with an error that lets the query fall through", "C02-R26": "tables of setParental, setRuleLists and setSafeBrowsing: nothing is installed for a switched-off (or paused) section; inside an enabled one every selected filter is installed under its own switch, rule lists in the profile's order", "C02-R24": "a name handed to a rule list is lower-cased; no domain-name field of an upstream record reaches DNSResult as spelled", "C02-R25": "the hash-prefix verdict cache, shared by all requesters, holds no message made by one requester's constructor (blocking mode, TTL)", "C02-R23": "hash-prefix refresh: publish, then clear the verdict cache, only after success (shared with C13-R3)", "C02-R22": "a domain name built by concatenation and stored into a record's domain-name field is guarded by a length comparison (SOA mbox of blocked answers)", "C02-R21": "SetReply on a message that already is a response is followed by restoring its response code (cached blocked answers in NXDOMAIN / REFUSED mode)", "C02-RC": "class rules (error chains, shadowed results, character classes, crossed arguments, pool constructors, array pools, loop completeness, loop-carried buffers, replacing setters, complete clones, Grow arithmetic, pooled-buffer escape, sorted searches, fresh decode targets, per-iteration objects, whole-message copies, codec guards) over the packages this property rests on", "C02-R20": "the result-cache key is an injective packing of host, full question type, class and direction (shared with C12-R7)", "C02-R19": "response side of the composite filter: first answer with a verdict decides; every rule source consulted with the response's own data as an answer; answer-type dispatch", "C02-R18": "objects built per filtering group / profile in conversion loops take no slice carried across iterations (shared backing array or accumulation)", "C02-R1": "request-filter order", "C02-R2": "FilterRequest precedence", "C02-R17": "pooled per-request filtering state is fully re-initialised; rule-list gathering loops skip (never stop at) an unknown element", "C02-R15": "the profile's rule-list IDs keep the configured order through the backend conversion (the first list with a matching rewrite wins, so reordering changes verdicts)", "C02-R13": "blocking-mode fields (custom IPv4 / IPv6 answers) are converted name-to-name by the backend and file-cache codecs", "C02-R11": "mainmw.filterRequest / filterResponse: the filter is asked about this request and this upstream answer; a CNAME rewrite makes the rewritten question go upstream and restores ID, question and a leading CNAME on the way back instead of response filtering", "C02-R10": "in-place refreshable lists (safe search): engine swap and cache clear in one write-locked section, queries under the lock (shared with C12-R1/R2)", "C02-R3": "rule-list consultation order and rewrite priority",
 				"C02-R4": "network rules before hosts rules", "C02-R5": "filter selection", "C02-R6": "response shaping and exhaustiveness", "C02-R7": "profile constructor provenance", "C02-R8": "one result cache per rule-list engine"},
 		}})
 }
@@ -46,6 +46,8 @@ func runC02(c *an.Ctx) {
 	})
 	c02ListOrder(c)
 	c02ResponseSide(c)
+	c02ProfileGates(c, "C02-R26")
+	c02RewriteAnswer(c, "C02-R27")
 	// ---- R24: names taken from the upstream's records are lower-cased before they are matched
 	if n := c02NormalisedNames(c, "C02-R24"); n < 3 {
 		c.Und("C02-R24", "names handed to the rule lists", token.NoPos, "only %d DNSResult calls found in the composite filter", n)
@@ -1043,4 +1045,135 @@ func c02SharedCacheValues(c *an.Ctx, rule string) (n int) {
 			"the cached value contains a message made by "+strings.Join(ms, ", ")+": the cache key is host, type and class only, so every later requester is served the first requester's blocking-mode shape and TTL")
 	}
 	return n
+}
+
+// c02ProfileGates holds the tables of the three functions that turn a
+// profile's (or a filtering group's) settings into the filters of its composite
+// filter: nothing is installed for a switched-off section, and inside an
+// enabled section every selected filter is installed, each under its own
+// switch.
+func c02ProfileGates(c *an.Ctx, rule string) {
+	const st = "filter/filterstorage.(*Default)."
+	decide(c, rule, st+"setSafeBrowsing", an.DecideCfg{
+		Dom: an.Domain{"p2.Enabled": an.Bools, "p2.DangerousDomainsEnabled": an.Bools, "p2.NewlyRegisteredDomainsEnabled": an.Bools},
+		Expect: func(f an.Features, o an.AOutcome) string {
+			var want []string
+			if f.B("p2.Enabled") && f.B("p2.DangerousDomainsEnabled") {
+				want = append(want, "p1.SafeBrowsing=p0.dangerous")
+			}
+			if f.B("p2.Enabled") && f.B("p2.NewlyRegisteredDomainsEnabled") {
+				want = append(want, "p1.NewRegisteredDomains=p0.newlyRegistered")
+			}
+			return sameStores(want, o)
+		},
+	})
+	decide(c, rule, st+"setRuleLists", an.DecideCfg{
+		Dom: an.Domain{"p2.Enabled": an.Bools, "len(p2.IDs)": an.Ints(0, 1, 2),
+			"p0.ruleLists[p2.IDs[0]]": an.NilOrNot, "p0.ruleLists[p2.IDs[1]]": an.NilOrNot},
+		Expect: func(f an.Features, o an.AOutcome) string {
+			// the final value of the composite's lists: the selected lists that exist, in the profile's order
+			want := "p1.RuleLists"
+			n := 0
+			if f.B("p2.Enabled") {
+				for i := int64(0); i < f.I("len(p2.IDs)"); i++ {
+					if !f.IsNil(fmt.Sprintf("p0.ruleLists[p2.IDs[%d]]", i)) {
+						want = fmt.Sprintf("builtin.append(%s, [nonnil:p0.ruleLists[p2.IDs[%d]]])", want, i)
+						n++
+					}
+				}
+			}
+			got := "p1.RuleLists"
+			if ss := o.Stores(); len(ss) > 0 {
+				got = strings.TrimPrefix(ss[len(ss)-1], "p1.RuleLists=")
+			}
+			if o.Exit != "return" || got != want || len(o.Stores()) != n {
+				return fmt.Sprintf("rule lists %s (nothing when the section is switched off; otherwise every selected list that exists, in order)", want)
+			}
+			return ""
+		},
+	})
+	decide(c, rule, st+"setParental", an.DecideCfg{
+		Dom: an.Domain{"p3.Enabled": an.Bools, "p3.PauseSchedule": an.NilOrNot, "paused": an.Bools, "p3.AdultBlockingEnabled": an.Bools,
+			"p3.SafeSearchGeneralEnabled": an.Bools, "p3.SafeSearchYouTubeEnabled": an.Bools, "len(p3.BlockedServices)": an.Ints(0, 1), "p0.services": an.NilOrNot},
+		OnCall: func(it *an.Interp, name string, args []an.AV) (an.AV, bool) {
+			switch {
+			case strings.HasSuffix(name, "ConfigSchedule).Contains"):
+				return an.CBool(it.Feature("paused").IsTrue()), true
+			case strings.HasSuffix(name, ".Now"):
+				return an.Sym("now"), true
+			case strings.HasSuffix(name, "serviceblock.Filter).RuleLists"):
+				return an.Sym("serviceLists"), true
+			}
+			return an.AV{}, false
+		},
+		Expect: func(f an.Features, o an.AOutcome) string {
+			var want []string
+			if f.B("p3.Enabled") && !(!f.IsNil("p3.PauseSchedule") && f.B("paused")) {
+				if f.B("p3.AdultBlockingEnabled") {
+					want = append(want, "p2.AdultBlocking=p0.adult")
+				}
+				if f.B("p3.SafeSearchGeneralEnabled") {
+					want = append(want, "p2.GeneralSafeSearch=p0.safeSearchGeneral")
+				}
+				if f.B("p3.SafeSearchYouTubeEnabled") {
+					want = append(want, "p2.YouTubeSafeSearch=p0.safeSearchYouTube")
+				}
+				if f.I("len(p3.BlockedServices)") > 0 && !f.IsNil("p0.services") {
+					want = append(want, "p2.ServiceLists=serviceLists")
+				}
+			}
+			return sameStores(want, o)
+		},
+	})
+}
+
+// sameStores compares the store effects of an outcome with the wanted set.
+func sameStores(want []string, o an.AOutcome) string {
+	got := o.Stores()
+	sort.Strings(got)
+	sort.Strings(want)
+	if o.Exit != "return" || strings.Join(got, "; ") != strings.Join(want, "; ") {
+		return "exactly the stores [" + strings.Join(want, "; ") + "]"
+	}
+	return ""
+}
+
+// c02RewriteAnswer holds the table of filterDNSRewrite: a $dnsrewrite match
+// with record values answers the question whatever its type; without values
+// for the question's type the answer is empty (NOERROR), not an error that
+// would let the query fall through to lower-priority rules.  Only a missing
+// value table and a value that cannot be converted are errors.
+func c02RewriteAnswer(c *an.Ctx, rule string) {
+	decide(c, rule, "filter/internal/rulelist.filterDNSRewrite", an.DecideCfg{
+		Dom: an.Domain{"p1.Response": an.NilOrNot, "converr": an.Bools, "ansnil": an.Bools,
+			"len(nonnil:p1.Response[p0.DNS.Question[0].Qtype])": an.Ints(0, 1, 2)},
+		OnCall: func(it *an.Interp, name string, args []an.AV) (an.AV, bool) {
+			switch {
+			case strings.HasSuffix(name, "rulelist.filterDNSRewriteResponse"):
+				if it.Feature("converr").IsTrue() {
+					return an.AV{Kind: an.KTuple, Tup: []an.AV{an.Nil(), an.NonNil("convErr")}}, true
+				}
+				if it.Feature("ansnil").IsTrue() {
+					return an.AV{Kind: an.KTuple, Tup: []an.AV{an.Nil(), an.Nil()}}, true
+				}
+				return an.AV{Kind: an.KTuple, Tup: []an.AV{an.NonNil("ans"), an.Nil()}}, true
+			case strings.HasSuffix(name, "Constructor).NewBlockedRespRCode"):
+				return an.NonNil("resp"), true
+			case name == "fmt.Errorf":
+				return an.NonNil("wrapped"), true
+			}
+			return an.AV{}, false
+		},
+		Expect: func(f an.Features, o an.AOutcome) string {
+			if len(o.Ret) != 2 {
+				return "two results"
+			}
+			n := f.I("len(nonnil:p1.Response[p0.DNS.Question[0].Qtype])")
+			fail := f.IsNil("p1.Response") || n > 0 && f.B("converr")
+			if fail != (o.Ret[0].Kind == an.KNil && o.Ret[1].Kind != an.KNil) || !fail && (o.Ret[0].String() != "nonnil:resp" || o.Ret[1].Kind != an.KNil) {
+				return fmt.Sprintf("error=%v (only without a value table or for a value that cannot be converted; no values for the question's type is an empty answer); got %s", fail, o.RetString())
+			}
+			return ""
+		},
+	})
 }
